@@ -7,6 +7,7 @@
 EXTENDS HmmExp
 CONSTANTS S, M, MaxT, Exps, InitExps, EndVecs,
           CycSet,    \* parameter set of the lemma run
+          Dec, DecSet,   \* TRUE: lemma run of the decoupled-chains family over DecSet
           Cyc        \* TRUE: the models are the closed-form cycle family (lemma run)
 
 NoEnd == [k \in 1..S |-> 0]
@@ -31,12 +32,21 @@ CycParams ==
 
 CycParamsQ == {p \in CycParams : p.eb = 0 /\ p.ee = 0 /\ p.big = 3}
 
+\* decoupled chains: 2 chains, every exponent role with a zero variant
+DecChains == [pe : {0, 1}, de : {0, 1}, ae : {-1, 0, 2}, be : {-1, 0, 1}, ee : {-1, 0}]
+DecOf(c1, c2) == [k |-> 2, pe |-> <<c1.pe, c2.pe>>, de |-> <<c1.de, c2.de>>, ae |-> <<c1.ae, c2.ae>>,
+                  be |-> <<c1.be, c2.be>>, ee |-> <<c1.ee, c2.ee>>]
+DecParams  == {DecOf(c1, c2) : c1 \in DecChains, c2 \in DecChains}
+DecParamsQ == {DecOf(c1, c2) : c1 \in {c \in DecChains : c.pe = 0 /\ c.de = 0 /\ c.ae = 0}, c2 \in DecChains}
+DecObsSet  == {DecObs(nn, hb) : nn \in 0..MaxT, hb \in {0, 1}} \ {<< >>}
+
 VARIABLES m, obs, pc, i, rows, from, res, par
 vars == <<m, obs, pc, i, rows, from, res, par>>
 T == Len(obs)
 
-Init == /\ IF Cyc THEN par \in CycSet /\ m = CycleModel(par) ELSE par = 0 /\ m \in Models
-        /\ obs \in ObsSeqs
+Init == /\ IF Cyc THEN par \in CycSet /\ m = CycleModel(par) /\ obs \in ObsSeqs
+           ELSE IF Dec THEN par \in DecSet /\ m = DecModel(par) /\ obs \in {o \in DecObsSet : Len(o) <= MaxT}
+           ELSE par = 0 /\ m \in Models /\ obs \in ObsSeqs
         /\ pc = "vit" /\ i = 0 /\ rows = << >> /\ from = << >> /\ res = [e |-> -1, path |-> << >>]
 VitFirst ==
     /\ pc = "vit" /\ i = 0
@@ -74,6 +84,15 @@ CycleLemma ==
         /\ ArgMinSet(m, obs) = {ClosedPath(par, T)}
         /\ res.path = ClosedPath(par, T) /\ res.e = ClosedExp(par, T)
         /\ T * Log2Ceil(par.s) >= 0
+\* closed forms of the decoupled-chains family = general definition
+NA == Cardinality({t \in 1..T : obs[t] = 0})
+DecLemma ==
+    (Dec /\ pc = "done") =>
+        LET hb == T - NA
+            mn == DecMin(par, NA, hb)
+        IN  /\ MinExpSet(m, obs) = mn
+            /\ mn < INF => /\ Mantissa(m, obs) = DecMantissa(par, NA, hb, mn)
+                            /\ ArgMinSet(m, obs) = {[t \in 1..T |-> c - 1] : c \in {x \in 1..par.k : DecE(par, x, NA, hb) = mn}}
 \* the likelihood mantissa: max term <= sum <= (number of paths) * max term
 MantissaBound ==
     (pc = "done" /\ res.e < INF) =>
